@@ -64,7 +64,7 @@ class Snap(object):
             self.keep.append(root)
             b = self.bufs.setdefault(id(root), len(self.bufs))
             off = v.__array_interface__['data'][0] - root.__array_interface__['data'][0]
-            kind = 'b' if v.dtype == bool else ('f' if v.dtype.kind in 'fiu' else v.dtype.kind)
+            kind = 'b' if v.dtype == bool else ('i' if v.dtype.kind in 'iu' else v.dtype.kind)
             if v.dtype == object:
                 vals = [self.take(x) for x in v.ravel().tolist()]
             else:
@@ -137,6 +137,29 @@ def _abs_diff(x, y):
     return abs(fx - fy)
 
 
+_PAIR = {'obj': ({}, {}), 'buf': ({}, {})}
+
+
+def reset_pairing():
+    """Object and buffer numbers are positions in each side's own traversal; what is compared is the *aliasing
+    structure*, i.e. that the two numberings are related by a bijection over the compared items (A19: an extra private
+    array held in an attribute no contract mentions used to shift the numbers and raise a false alarm)."""
+    for k in _PAIR:
+        _PAIR[k] = ({}, {})
+
+
+def _pair(kind, x, y):
+    ab, ba = _PAIR[kind]
+    if x in ab or y in ba:
+        return ab.get(x, None) == y and ba.get(y, None) == x
+    ab[x] = y
+    ba[y] = x
+    return True
+
+
+_NUMBERED = ('obj', 'list', 'dict', 'opaque', 'ref')
+
+
 def diff(a, b, path, out, limit=12, ignore=()):
     if len(out) >= limit:
         return
@@ -160,7 +183,7 @@ def diff(a, b, path, out, limit=12, ignore=()):
             if (a[2] == 'b') != (b[2] == 'b'):
                 out.append('%s: dtype kind %s vs %s' % (path, a[2], b[2]))
             if COMPARE_ALIASING:
-                if a[4] != b[4]:
+                if not _pair('buf', a[4], b[4]):
                     out.append('%s: aliases different storage (buffer #%d vs #%d)' % (path, a[4], b[4]))
                 elif a[5] != b[5] or a[6] != b[6]:
                     out.append('%s: different view of the same storage' % path)
@@ -187,7 +210,13 @@ def diff(a, b, path, out, limit=12, ignore=()):
         if len(a) != len(b):
             out.append('%s: %s vs %s' % (path, _short(a), _short(b)))
             return
+        numbered = len(a) > 1 and a[0] == b[0] and isinstance(a[0], str) and a[0] in _NUMBERED
+        if numbered and COMPARE_ALIASING and isinstance(a[1], int) and isinstance(b[1], int) and not _pair('obj', a[1], b[1]):
+            out.append('%s: aliases a different object (#%d vs #%d)' % (path, a[1], b[1]))
+            return
         for i, (x, y) in enumerate(zip(a, b)):
+            if numbered and i == 1:
+                continue
             diff(x, y, '%s' % path if i < 2 and isinstance(x, (str, int)) else '%s.%d' % (path, i), out, limit, ignore)
         return
     if isinstance(a, list):
@@ -286,6 +315,7 @@ def trial(contract, build, values=None, seed=0, ignore=(), only=None, post_body=
         ra = sa.take([out_a[1]] + [args_a[k] for k in sorted(args_a)])
         rb = sb.take([out_b[1]] + [args_b[k] for k in sorted(args_b)])
         names = ['return'] + ['arg ' + k for k in sorted(args_a)]
+        reset_pairing()
         for nm, x, y in zip(names, ra[2], rb[2]):
             if any(nm == p or nm.startswith(p + '.') or nm.startswith(p + '[') for p in ignore):
                 continue
@@ -359,8 +389,10 @@ def _filter_by_sensitivity(contract, build, used, seed, real, names, ra, rb, ign
         ra2 = Snap().take([oa2[1]] + [a2[k] for k in sorted(a2)])
         rb2 = Snap().take([ob2[1]] + [b2[k] for k in sorted(b2)])
         COLLECT = {}
+        reset_pairing()
         for nm, x, y in zip(names, ra[2], ra2[2]):
             diff(x, y, nm, [], limit=10 ** 9, ignore=ignore)
+        reset_pairing()
         for nm, x, y in zip(names, rb[2], rb2[2]):
             diff(x, y, nm, [], limit=10 ** 9, ignore=ignore)
         noise = COLLECT
@@ -369,6 +401,7 @@ def _filter_by_sensitivity(contract, build, used, seed, real, names, ra, rb, ign
         # rounding dominates both sides; such a sample can neither confirm nor refute anything
         scale = {}
         COLLECT = scale
+        reset_pairing()
         for nm, x, y in zip(names, rb[2], _zero_like(rb[2])):
             diff(x, y, nm, [], limit=10 ** 9, ignore=ignore)
         COLLECT = None
@@ -377,6 +410,7 @@ def _filter_by_sensitivity(contract, build, used, seed, real, names, ra, rb, ign
                 return 'ill-conditioned'
         NOISE = dict((k, v) for k, v in noise.items() if v == v)
         out = []
+        reset_pairing()
         for nm, x, y in zip(names, ra[2], rb[2]):
             if any(nm == p or nm.startswith(p + '.') or nm.startswith(p + '[') for p in ignore):
                 continue
@@ -416,8 +450,10 @@ def _jsonable(d):
     return out
 
 
-def search(contract, build, model_vals=None, n_random=200, seed=0, ignore=(), only=None, post_body=None):
-    """Directed search for a failing input: the solver's model first, then random pre-states."""
+def search(contract, build, model_vals=None, n_random=200, seed=0, ignore=(), only=None, post_body=None, budget_s=None):
+    """Directed search for a failing input: the solver's model first, then random pre-states (at most budget_s seconds)."""
+    import time as _time
+    t_end = None if budget_s is None else _time.time() + budget_s
     tried = 0
     rejected = 0
     if model_vals:
@@ -434,7 +470,7 @@ def search(contract, build, model_vals=None, n_random=200, seed=0, ignore=(), on
                 r['from_model'] = True
                 return r, tried
     s = 0
-    while tried < n_random + (6 if model_vals else 0) and s < 20 * n_random:
+    while tried < n_random + (6 if model_vals else 0) and s < 20 * n_random and (t_end is None or _time.time() < t_end):
         r = trial(contract, build, None, seed + s, ignore, only, post_body)
         s += 1
         if r == 'reject':
